@@ -926,7 +926,7 @@ class VcfZarrWriter:
         for v_chunk in range(pos.cdata_shape[0]):
             c = contig.blocks[v_chunk]
             p = pos.blocks[v_chunk]
-            e = p + length.blocks[v_chunk] - 1
+            e = p.astype(np.int32) + length.blocks[v_chunk] - 1
 
             # create a row for each contig in the chunk
             d = np.diff(c, append=-1)
